@@ -629,8 +629,59 @@ func c06WireTerm(t engine.Term) string {
 	return sb.String()
 }
 
-func genC06Terms(r *rand.Rand, n int, tier string) []string {
+// c06TermsPairs: the exhaustive small scope of the property — every pair (context operator, operand operator) over
+// the 7 specifiers x 3 priority relations, the operand in every argument position, with plain / operator-atom /
+// negative-number / nested leaves; plus atoms that are prefix and infix operators at once.
+func c06TermsPairs() []string {
 	var out []string
+	arity := func(spec string) int { return len(spec) - 1 }
+	leafSets := [][]string{{"Aa", "Ab", "Ac"}, {"Afoo", "Abar", "A-"}, {"I-1", "I0", "F8000000000000000"}, {"I1", "Fbff8000000000000", "A%5b%5d"}}
+	mk := func(name, spec string, args []string) string {
+		return fmt.Sprintf("C%d:%s %s", arity(spec), name, strings.Join(args[:arity(spec)], " "))
+	}
+	for _, s1 := range c06OpSpecs {
+		for _, s2 := range c06OpSpecs {
+			for _, pr := range [][2]int{{400, 500}, {500, 500}, {500, 400}} {
+				ops := fmt.Sprintf("op I%d A%s Afoo ; op I%d A%s Abar", pr[0], s1, pr[1], s2)
+				for li, leaves := range leafSets {
+					inner := mk("foo", s1, leaves)
+					for pos := 0; pos < arity(s2); pos++ {
+						args := []string{leaves[2], leaves[1]}
+						args[pos] = inner
+						mode := []string{"writeq", "wt"}[(li+pos)%2]
+						out = append(out, fmt.Sprintf("hdr %s chars ; %s ; term %s", mode, ops, mk("bar", s2, args)))
+					}
+					// the operand operator under itself, and under the default minus
+					self := []string{inner, inner}
+					out = append(out, fmt.Sprintf("hdr writeq chars ; %s ; term %s", ops, mk("foo", s1, self)))
+					out = append(out, fmt.Sprintf("hdr writeq chars ; %s ; term C1:- %s", ops, inner))
+					out = append(out, fmt.Sprintf("hdr writeq chars ; %s ; term C2:- %s %s", ops, inner, inner))
+				}
+			}
+		}
+	}
+	// one name as prefix and infix (and prefix and postfix) operator at once
+	for _, sp := range []string{"fx", "fy"} {
+		for _, si := range []string{"xfx", "xfy", "yfx", "xf", "yf"} {
+			for _, pr := range [][2]int{{200, 500}, {500, 500}, {700, 500}} {
+				ops := fmt.Sprintf("op I%d A%s Afoo ; op I%d A%s Afoo", pr[0], sp, pr[1], si)
+				one := "C1:foo Aa"
+				two := "C2:foo Aa Ab"
+				terms := []string{one, "C1:foo " + one, "C1:foo Afoo", "C1:foo I-1", "C1:foo C1:- I1", "C2:- " + one + " " + one, "C2:= Afoo " + one, "C1:- " + one}
+				if arity(si) == 2 {
+					terms = append(terms, two, "C2:foo "+one+" "+one, "C1:foo "+two, "C2:foo Afoo Afoo", "C2:foo "+two+" "+two, "C2:foo I-1 I-1", "C2:foo Afoo "+one)
+				}
+				for _, t := range terms {
+					out = append(out, fmt.Sprintf("hdr writeq chars ; %s ; term %s", ops, t))
+				}
+			}
+		}
+	}
+	return out
+}
+
+func genC06Terms(r *rand.Rand, n int, tier string) []string {
+	out := c06TermsPairs()
 	for i := 0; i < n; i++ {
 		mode := pick(r, []string{"writeq", "writeq", "writeq", "canonical", "canonical", "wt"})
 		dq := pick(r, []string{"codes", "chars", "atom"})
